@@ -191,9 +191,21 @@ class Engine:
         s.set('timeout', min(tmo, self.first_slice_ms))
         s.set('random_seed', self.seed)
         s.add(fs)
+        if want != z3.sat and self._abstract_unsat(fs, 250):
+            r, model, who = z3.unsat, None, 'z3py-linear-abstraction'
+            self.stats.queries += 1
+            self.stats.solver_s += time.time() - t0
+            self.stats.by_solver[who] = self.stats.by_solver.get(who, 0) + 1
+            self.last_formulas = fs
+            return r, model
         r = s.check()
         model = s.model() if r == z3.sat else None
         who = 'z3py'
+        if r == z3.unknown:
+            # linear abstraction: every product of non-constant terms becomes an opaque variable (same term -> same variable).  The
+            # abstraction has more models than the formula, so `unsat` carries over; anything else falls through to the portfolio.
+            if self._abstract_unsat(fs):
+                r, who = z3.unsat, 'z3py-linear-abstraction'
         if r == z3.unknown and self.portfolio:
             r, model, who = self.external(s, fs, tmo)
         self.stats.queries += 1
@@ -201,6 +213,41 @@ class Engine:
         self.stats.by_solver[who] = self.stats.by_solver.get(who, 0) + 1
         self.last_formulas = fs
         return r, model
+
+    def _abstract_unsat(self, fs, timeout_ms=1500):
+        table = {}
+        cache = {}
+
+        def ab(e):
+            k = e.get_id()
+            if k in cache:
+                return cache[k]
+            if z3.is_app(e) and e.num_args() > 0:
+                kind = e.decl().kind()
+                ch = e.children()
+                nonconst = [c for c in ch if not (z3.is_rational_value(c) or z3.is_int_value(c))]
+                if (kind == z3.Z3_OP_MUL and len(nonconst) >= 2) or kind == z3.Z3_OP_POWER or (kind == z3.Z3_OP_DIV and not (z3.is_rational_value(ch[1]) or z3.is_int_value(ch[1]))):
+                    key = z3.simplify(e).sexpr()
+                    v = table.get(key)
+                    if v is None:
+                        v = z3.Real(f'abs!{len(table)}') if e.sort() == z3.RealSort() else z3.Int(f'abs!{len(table)}')
+                        table[key] = v
+                    r = v
+                else:
+                    nc = [ab(c) for c in ch]
+                    r = e.decl()(*nc) if any(a.get_id() != b.get_id() for a, b in zip(nc, ch)) else e
+            else:
+                r = e
+            cache[k] = r
+            return r
+
+        try:
+            s2 = z3.Solver()
+            s2.set('timeout', timeout_ms)
+            s2.add([ab(f) for f in fs])
+            return bool(table) and s2.check() == z3.unsat
+        except Exception:
+            return False
 
     def external(self, s, fs, tmo):
         """second opinions through SMT-LIB2 files; sat answers are turned back into a z3py model by asserting the values"""
